@@ -234,6 +234,9 @@ func c15Run(c *Ctx) {
 		Lines(Var("o", "{x: 1, y: \"hi\"}"), Var("a", "[o, o, 0]"), "a[2] = a;", Print("a"), Var("leaf", "{p: 1}"), Var("root", "{p: leaf, q: leaf}"), "root.self = root;", Print("root"), Var("sh", "[7, 8]"), Var("c", "[sh, [sh, sh], 0]"), "c[2] = c;", Print("c"), Print("[c, o]")),
 		Lines(Var("a", "[1, 0, 3]"), "a[1] = a;", Print("a"), Var("b", "[0, 2, 3, 4]"), "b[0] = b;", Print("b"), Var("root", `{name: "root", z: 5}`), `root.items = [root, "tail", 7];`, Print("root"), Var("c", "[[0, 8], 9]"), "c[0][0] = c;", Print("c"), Var("d", "[0, 0, 5]"), "d[0] = d; d[1] = d;", Print("d"), Print("[d, 6]")),
 		Lines(Var("a", "[\"\u09df\", \"e\u0301\", 0]"), "a[2] = a;", Print("a"), Var("nd", "{name: \"\u09ac\u09dc\", kids: []}"), Var("kid", "{name: \"\u0995\u09c7\u09be\", parent: nd}"), "nd.kids = [kid];", Print("nd"), Print("[nd, \"\u09dc\"]"), Print("kid")),
+		// property names are shown exactly as written (digits of either script, marks); a property holding nil is shown as nil
+		Lines(Var("st", "{\u09b0\u09cb\u09b2\u09e7: 5, \u09a6\u09bf\u09a8\u09e8: 6, d3: 7, x\u09e6y: 8}"), Print("st"), Print(BI("keys", "st")), Print("st.\u09b0\u09cb\u09b2\u09e7 + st.x\u09e6y"), "st.\u09a8\u09a4\u09c1\u09a8\u09ef = 9;", Print("st"), Print("[st, {k\u09e7: {k\u09e8: 1}}]"), Var("x\u09e7", "1"), Var("x1", "2"), Print("x\u09e7 + x1")),
+		Lines(Var("o", "{k: nil, j: 1}"), Print("o.k"), Print("o"), Fun("nothing", "", ""), "o.r = nothing();", Print("o.r"), Print("[o.k, o.r]"), Var("node", "{val: 1, next: nil}"), Print("node.next"), Print("node.next == nil"), Var("chain", "{next: {next: nil}}"), Print("chain.next.next"), Print(`"end"`)),
 		Lines(Print(`"a" + 1`), Print(`1 + "a"`), Print(`"x" + 0.5 + "y" + 1000000 + "z"`), Print(`"" + (1/3)`), Print(`(2 ** 70) + ""`)),
 	} {
 		if c.Mine() {
